@@ -26,6 +26,21 @@ CHECKS = {
     'C13': dict(cat='other', tech='symbolic execution of the MIR of the two face-integral loops, the conversion closures and the box normalisation -> SMT',
                 text='Solver-decided for enumerated plane labels x symbolic indices/mask on a 3-plane / 5-tetrahedra harness list: symmetric = non-symmetric minus exactly the unshifted planes towards a constructed lower-index neighbour, plane order, labels, one delivery of each tetrahedron to its own plane; face rule with mask None = all-true mask; identical 1D/2D box normalisation on both routes. Integrator side only; bitwise agreement with the r-tree route and of float sums is outside.',
                 note=TRUST_M + '; std Option/Vec/iterator semantics modelled positionally', ref='DESIGN.md 4 C13'),
+    'C04': dict(cat='other', tech='symbolic execution of the MIR of the face init/collect/finalize code, cuboid and the builder loop -> SMT',
+                text='Solver-decided over the reals / symbolic labels: the stored face normal is minus the inward plane normal of the left cell; wall normals are inward unit axes; neighbour planes carry the unit normal from the neighbour towards the generator through the midpoint; finalize divides by 3 x area for every positive area (centroid = affine combination of triangle vertices); each face of a constructed cell is present in the tessellation (store-once rule). Closure and the divergence identity (cell-level float sums) are outside.',
+                note=TRUST_M, ref='DESIGN.md 4 C04'),
+    'C06': dict(cat='other', tech='symbolic execution of the MIR of the periodic-image enumeration, shift closure, cuboid, right_loc and one builder-loop iteration -> SMT',
+                text='Solver-decided over symbolic boxes/positions: exactly the 3^d lattice shifts are enumerated (only on active axes), closed under negation; reported shift = -(query shift), absent iff zero; the box is tripled exactly on active periodic axes and the integer grid domain contains it with margin; neighbour position = generator + shift; every candidate within the safety radius - including the cell\'s own images - is clipped by its labelled bisector. Equality with the replicated tessellation and translation invariance are outside.',
+                note=TRUST_M, ref='DESIGN.md 4 C06'),
+    'C08': dict(cat='other', tech='Kani/CBMC harnesses (bit-precise) + symbolic execution of MIR -> SMT',
+                text='Generator::new erases unused coordinates for every f64 bit pattern (Kani); vector_is_valid (Kani); box normalisation on both routes, active-subspace vertex radius, images and tripling only on active axes, no faces for normals outside the active subspace in all three face producers (MIR -> z3). The 1D closed form and 2D = 3D slab equalities are outside.',
+                note=TRUST_M + '; ' + TRUST_K, ref='DESIGN.md 4 C08'),
+    'C16': dict(cat='other', tech='symbolic execution of the MIR of from_dual, update_safety_radius, HalfSpace::new/clip and one builder-loop iteration -> SMT over the reals',
+                text='Solver-decided per-step lemma: active-subspace vertex radius; sr = 2 sqrt(max radius^2) (3 vertices quick / 4 thorough); a bisector of any generator farther than sr clips no vertex (factor 1.5 refuted); the loop returns the cell unchanged iff the candidate is farther than sr. The history quantifier is a composition argument with C17, not a query.',
+                note=TRUST_M, ref='DESIGN.md 4 C16'),
+    'C17': dict(cat='other', tech='symbolic execution of the MIR of rtree_nn.rs leaf functions -> SMT over the reals',
+                text='Solver-decided leaf lemmas: wrapped leaf distance = distance to the reported image; envelope distance is an admissible lower bound and zero iff inside; heap order is the reversed distance order; the initial heap holds exactly the 3^d shifts; shift absent iff zero. The best-first loop over rstar nodes and rstar itself are not encoded.',
+                note=TRUST_M + '; rstar trusted', ref='DESIGN.md 4 C17'),
     'C19': dict(cat='other', tech='symbolic execution of each helper\'s MIR -> polynomial identities over R decided by z3 (cvc5 / z3-4.8 cross-check), native replay of counterexamples',
                 text='Solver-decided for all real arguments under the documented non-degeneracy: the defining equations of intersect_planes, Plane::project_onto(_intersection), signed_volume_tet, signed_area_tri, Sphere::from_{two,three,four}_points, Sphere::extend and the float in-sphere polynomial hold as identities of the arithmetic the compiler sees (f64 read as exact reals; rounding and conditioning outside the claim).',
                 note=TRUST_M, ref='DESIGN.md 4 C19'),
